@@ -130,6 +130,11 @@ impl Keys {
 
 const PARTY_STACK: usize = 256 << 20;
 
+/// The simulated wall-clock time of a party (ns since the epoch): somewhere in 2020..2030.
+pub fn party_time_ns(keys: &Keys) -> u64 {
+    (1_600_000_000 + (keys.k0 ^ keys.k1.rotate_left(17)) % 300_000_000) * 1_000_000_000 + (keys.k1 % 1_000_000_000)
+}
+
 /// Run `f` as a simulated process: a fresh thread whose `RandomState` keys come from the seam.
 /// Parties never overlap in time (spawn, run, join), so there is no real concurrency here.
 pub fn run_party<T: Send + 'static>(keys: Keys, f: impl FnOnce() -> T + Send + 'static) -> Result<T, String> {
@@ -147,7 +152,11 @@ pub fn run_party<T: Send + 'static>(keys: Keys, f: impl FnOnce() -> T + Send + '
                 let m: HashMap<u8, u8> = HashMap::new();
                 std::hint::black_box(&m);
             }
-            guarded(f)
+            // party time: derived from the keys, so no two parties agree on what time it is
+            seams::enter_party_clock(party_time_ns(&keys));
+            let r = guarded(f);
+            seams::leave_party_clock();
+            r
         })
         .map_err(|e| format!("spawn failed: {e}"))?;
     match h.join() {
